@@ -54,6 +54,7 @@ def run(prog, chk):
     client_write_table(prog, chk, "C13.l")
     from . import c14 as _c14
     backlog_creation_registers_write(prog, chk, "C13.o")
+    suspension_change_reregisters(prog, chk, "C13.p")
     _c14.event_translation_tables(prog, chk, "C13.n")     # level-triggered registration: a write event that lost against a read is reported again
     c08.window_trims(prog, chk, "C13.m")      # the drain arm removes what the socket took with removeFront(sent)
     # the send backlog is a Buffer that is freed whenever it has drained and grown again by the next partial send: the pairing of
@@ -505,3 +506,25 @@ def backlog_creation_registers_write(prog, chk, rid):
                         q.no_casts(w.r(a))[:50], " (buffer known empty)" if was_empty else ""), evals=len(sets) + 1)
     if n == 0:
         raise AnalysisBroken("ClientImpl::write: no append that creates the backlog found")
+
+
+def suspension_change_reregisters(prog, chk, rid):
+    """the interest set of a client is (read iff not suspended) | (write iff backlog).  suspend()/resume() change the first half, so each
+    has to register the client anew on every path after it has flipped `_suspended` - what was registered before (by write(), say)
+    still contains the read interest of a non-suspended client."""
+    chk.rule(rid, "MPT: in ClientImpl::suspend / resume every path from the store to `_suspended` to the return passes `_p._sockets.set(*this, ...)` "
+                  "(whose flag value C13.d decides)", floor=2)
+    for nm in ("suspend", "resume"):
+        f = sfn(prog, P + "ClientImpl::" + nm)
+        flips = [s_.node for s_ in q.stores(f) if q.no_casts(f.r(s_.lhs)) == "this->_suspended" and f.node_pos(s_.node) is not None]
+        sets = [c for c in q.calls(f) if (f.nodes[c].get("callee") or "").endswith("Poll::set") and "_sockets" in q.no_casts(f.r(c))]
+        if not flips:
+            raise AnalysisBroken("ClientImpl::%s: no store to _suspended" % nm)
+        bad = [x for x in flips if not sets or f.find_path(f.node_pos(x), {f.exit_pos()}, avoid=q.pos_of(f, sets)) is not None]
+        if bad:
+            chk.bad(rid, f, "suspension-change-without-registration:" + nm, f.where(bad[0]),
+                    "%s() changes `_suspended` and a path returns without registering the client anew: the poll set keeps the interest set of the "
+                    "old state%s" % (nm, " - a suspended client with a backlog still gets read events (and its backlog is starved behind them)" if nm == "suspend" else
+                                     " - a resumed client is never told about input again"), evals=len(flips) + len(sets))
+        else:
+            chk.ok(rid, f, "%s() registers the client anew after changing `_suspended`" % nm, f.where(flips[0]), "no path from the store to the return avoids _p._sockets.set", evals=len(flips) + len(sets))
